@@ -66,11 +66,37 @@ def clamped_points(ctx, rep, rule):
                 # the box must be the payload of the Option returned for the same four points (not a part or a copy with changes)
                 whole = bb[0] == 'field' and str(bb[2]) == '0' and strip_upd(bb[1])[0] == 'variant' and strip_upd(bb[1])[2] == 'Some' \
                     and strip_upd(strip_upd(bb[1])[1])[0] in ('call', 'pcall')
-                pts.append((raw, True, src == ['a1', 'a2', 'b1', 'b2'] and whole))
+                grouped = src is not None and len(src) == 4 and None not in src and \
+                    {frozenset(src[:2]), frozenset(src[2:])} == {frozenset(('a1', 'a2')), frozenset(('b1', 'b2'))}
+                # the routine is symmetric in the end points and in the segments when I-ranges/bbox holds (checked where this is used)
+                pts.append((raw, True, grouped and whole))
             else:
                 pts.append((payload, False, False))
         out.append((p, r[2], pts))
     return b, out
+
+
+def _num(v, env):
+    """concrete value of an expression over named parameter projections (comparisons, min / max / clamp)"""
+    x = strip_upd(v)
+    n_ = pname(x)
+    if n_ in env:
+        return env[n_]
+    if sym.is_const(x):
+        return x[1]
+    if x[0] == 'op' and x[1] == 'not':
+        return not _num(x[2], env)
+    if x[0] == 'op' and len(x) == 4 and x[1] in ('lt', 'gt', 'le', 'ge', 'eq', 'ne'):
+        l_, r_ = _num(x[2], env), _num(x[3], env)
+        return {'lt': l_ < r_, 'gt': l_ > r_, 'le': l_ <= r_, 'ge': l_ >= r_, 'eq': l_ == r_, 'ne': l_ != r_}[x[1]]
+    if x[0] in ('call', 'pcall') and re.search(r'Float::(min|max)$|::f(32|64)::<impl f(32|64)>::(min|max)$', x[1]) and len(x[2]) == 2:
+        l_, r_ = _num(x[2][0], env), _num(x[2][1], env)
+        return min(l_, r_) if x[1].endswith('min') else max(l_, r_)
+    if x[0] in ('call', 'pcall') and re.search(r'::clamp$', x[1]) and len(x[2]) == 3:
+        v_, lo_, hi_ = (_num(q, env) for q in x[2])
+        return min(max(v_, lo_), hi_)
+    raise ValueError(show(noepoch(x))[:60])
+
 
 
 def check_clamp(ctx, rep, rule='G-clamp'):
@@ -87,64 +113,57 @@ def check_clamp(ctx, rep, rule='G-clamp'):
                    'points>); found %s (clamped: %s, box of a1,a2,b1,b2: %s)' % (i, variant, show(noepoch(raw))[:90], clamped, box_ok),
                    loc=b.loc(b.j['line_lo']), reason='provenance')
     rep.floor(rule, 'returned payloads', n, 8)
+    # the box is accepted for any arrangement of the same two segments: the routine that computes it must be that symmetric
+    check_bbox_symmetry(ctx, rep, rule=rule)
     # intersection_impl is private to intersection()
     cg = CallGraph(f)
     callers = sorted(n2 for n2, succ in cg.edges.items() if IMPL in succ and n2 in f.bodies)
     rep.ob(rule, 'unclamped-routine-has-one-caller', callers == [INTER],
            'intersection_impl (unclamped) is called from %s; only intersection() may call it' % callers, reason='inventory')
-    # the clamp itself
+    # the clamp itself: evaluated on concrete positions of p relative to the box (below, on min, inside, on max, above; also a
+    # degenerate box), per axis; every comparison form (<, <=, >, >=, min/max/clamp calls) is the same to this
     bc, pc = rep.explore(ctx, CLAMP, rule)
     if bc is None:
         return
     rows = 0
-    for p in pc:
-        if p.end != 'return':
-            continue
-        r = strip_upd(p.ret)
-        d = dict(zip(r[3], r[4])) if r[0] == 'agg' else {}
-        state = {'x': {}, 'y': {}}
-        bad = None
-        for (v, c) in p.conds:
-            x = strip_upd(v)
-            if x[0] != 'op' or len(x) != 4:
-                bad = show(noepoch(x))[:60]
-                continue
-            a, bb_ = pname(x[2]), pname(x[3])
-            op = x[1]
-            if op == 'gt' and a and bb_:
-                a, bb_, op = bb_, a, 'lt'          # a > b  ==  b < a
-            if op != 'lt' or not a or not bb_:
-                bad = show(noepoch(x))[:60]
-                continue
-            m1 = re.match(r'^p\.(x|y)$', a)
-            m2 = re.match(r'^bb\.(min|max)\.(x|y)$', bb_)
-            m3 = re.match(r'^bb\.(min|max)\.(x|y)$', a)
-            m4 = re.match(r'^p\.(x|y)$', bb_)
-            if m1 and m2 and m1.group(1) == m2.group(2) and m2.group(1) == 'min':
-                state[m1.group(1)]['below'] = c[1]          # p.a < bb.min.a
-            elif m3 and m4 and m3.group(2) == m4.group(1) and m3.group(1) == 'max':
-                state[m4.group(1)]['above'] = c[1]          # bb.max.a < p.a
-            else:
-                bad = '%s < %s' % (a, bb_)
-        if bad:
-            rep.ob(rule, 'clamp-condition-modelled', False, 'constrain_to_bounding_box compares %s (expected p.a < bb.min.a / p.a > bb.max.a per axis)' % bad,
-                   loc=bc.loc(bc.j['line_lo']), reason='cannot-tabulate')
-            continue
-        for axis in ('x', 'y'):
-            s = state[axis]
-            if s.get('below') is True:
-                exp = 'bb.min.%s' % axis
-            elif s.get('below') is False and s.get('above') is True:
-                exp = 'bb.max.%s' % axis
-            elif s.get('below') is False and s.get('above') is False:
-                exp = 'p.%s' % axis
-            else:
-                exp = '?'
-            got = pname(d.get(axis, ('c', 0)))
-            rows += 1
-            rep.ob(rule, 'clamp.%s:below=%s,above=%s' % (axis, s.get('below'), s.get('above')), got == exp,
-                   'constrain_to_bounding_box returns %s for %s with (p below min: %s, p above max: %s); expected %s'
-                   % (got, axis, s.get('below'), s.get('above'), exp), loc=bc.loc(bc.j['line_lo']), reason='table-row', expected=exp, found=got)
+
+    num = _num
+
+    boxes = [((1, 3), (0, 1, 2, 3, 4)), ((2, 2), (1, 2, 3))]
+    bad_rows = []
+    try:
+        for (xbox, xs) in boxes:
+            for (ybox, ys) in boxes:
+                for px in xs:
+                    for py in ys:
+                        env = {'p.x': px, 'p.y': py, 'bb.min.x': xbox[0], 'bb.max.x': xbox[1], 'bb.min.y': ybox[0], 'bb.max.y': ybox[1]}
+                        hits = 0
+                        for p in pc:
+                            if p.end != 'return':
+                                continue
+                            if not all((bool(num(v, env)) == bool(c[1])) if c[0] == 'eq' else (num(v, env) not in c[1]) for (v, c) in p.conds):
+                                continue
+                            hits += 1
+                            r = strip_upd(p.ret)
+                            d = dict(zip(r[3], r[4])) if r[0] == 'agg' else {}
+                            got = tuple(num(d[ax], env) if ax in d else None for ax in ('x', 'y'))
+                            exp = (min(max(px, xbox[0]), xbox[1]), min(max(py, ybox[0]), ybox[1]))
+                            rows += 1
+                            if got != exp:
+                                bad_rows.append((env, got, exp))
+                        if hits == 0:
+                            bad_rows.append((env, 'no path', None))
+    except (ValueError, KeyError, TypeError) as e:
+        rep.ob(rule, 'clamp-condition-modelled', False, 'constrain_to_bounding_box cannot be evaluated on concrete positions: %s' % e,
+               loc=bc.loc(bc.j['line_lo']), reason='cannot-tabulate')
+        return
+    for (env, got, exp) in bad_rows[:4]:
+        rep.ob(rule, 'clamp:p=(%s,%s),box=[%s,%s]x[%s,%s]' % (env['p.x'], env['p.y'], env['bb.min.x'], env['bb.max.x'], env['bb.min.y'], env['bb.max.y']),
+               False, 'constrain_to_bounding_box returns %s for p=(%s,%s) and the box [%s,%s]x[%s,%s]; expected %s'
+               % (got, env['p.x'], env['p.y'], env['bb.min.x'], env['bb.max.x'], env['bb.min.y'], env['bb.max.y'], exp),
+               loc=bc.loc(bc.j['line_lo']), reason='table-row', expected=str(exp), found=str(got))
+    rep.ob(rule, 'clamp-is-the-nearest-point-of-the-box', not bad_rows, '%d of %d evaluated positions are not clamped to the box' % (len(bad_rows), rows),
+           loc=bc.loc(bc.j['line_lo']), reason='table-row')
     rep.rows_compared += rows
     rep.floor(rule, 'clamp rows', rows, 12)
 
@@ -331,30 +350,53 @@ def check_ranges(ctx, rep, rule='I-ranges'):
 
 
 def check_bbox_symmetry(ctx, rep, rule='I-ranges'):
-    """get_intersection_bounding_box treats its two segments alike and yields min=max(starts), max=min(ends) per axis"""
+    """get_intersection_bounding_box returns the intersection of the boxes of its two segments (None when they are disjoint):
+    evaluated on concrete coordinates, per axis max(min(a1,a2), min(b1,b2)) .. min(max(a1,a2), max(b1,b2)).  A routine that
+    passes is symmetric in the end points of each segment and in the two segments, which G-clamp relies on."""
     b, ps = rep.explore(ctx, BBOX, rule)
     if b is None:
         return
-    sigs = set()
-    for p in ps:
-        if p.end != 'return':
-            continue
-        r = strip_upd(p.ret)
-        if r[0] == 'agg' and r[2] == 'Some':
-            bb = strip_upd(r[4][0])
-            d = dict(zip(bb[3], bb[4]))
-            for corner, fn in (('min', 'max'), ('max', 'min')):
-                c = strip_upd(d[corner])
-                for i, axis in enumerate(('x', 'y')):
-                    y = strip_upd(c[4][i])
-                    ok = y[0] in ('pcall', 'call') and y[1].endswith('Float::' + fn) and len(y[2]) == 2
-                    names = sorted(pname(a) or '?' for a in y[2]) if ok else []
-                    ok = ok and len(names) == 2 and names[0][0] == 'a' and names[1][0] == 'b' and all(nm.endswith('.' + axis) for nm in names)
-                    sigs.add((corner, axis, ok))
-    bad = sorted((c, a) for (c, a, ok) in sigs if not ok)
-    rep.ob(rule, 'bbox:min=max-of-starts,max=min-of-ends', bool(sigs) and not bad,
-           'get_intersection_bounding_box must intersect the two segments\' boxes per axis (one coordinate of a and one of b in each '
-           'min/max); wrong for %s' % bad, loc=b.loc(b.j['line_lo']), reason='table-row')
+    import itertools
+    few = [(0, 2, 1, 3), (1, 3, 0, 2), (2, 0, 3, 1), (0, 1, 2, 3), (3, 2, 1, 0), (0, 3, 1, 2), (1, 1, 1, 1), (0, 1, 1, 2), (2, 1, 1, 0)]
+    allc = list(itertools.product((0, 1, 2), repeat=4))
+    bad = []
+    n = 0
+    try:
+        for xs, ys in [(x_, y_) for x_ in allc for y_ in few] + [(x_, y_) for x_ in few for y_ in allc]:
+            env = {}
+            for nm, xv, yv in zip(('a1', 'a2', 'b1', 'b2'), xs, ys):
+                env[nm + '.x'], env[nm + '.y'] = xv, yv
+            lo = (max(min(xs[0], xs[1]), min(xs[2], xs[3])), max(min(ys[0], ys[1]), min(ys[2], ys[3])))
+            hi = (min(max(xs[0], xs[1]), max(xs[2], xs[3])), min(max(ys[0], ys[1]), max(ys[2], ys[3])))
+            exp = (lo, hi) if lo[0] <= hi[0] and lo[1] <= hi[1] else None
+            hits = 0
+            for p in ps:
+                if p.end != 'return':
+                    continue
+                if not all((bool(_num(v, env)) == bool(c[1])) if c[0] == 'eq' else (_num(v, env) not in c[1]) for (v, c) in p.conds):
+                    continue
+                hits += 1
+                r = strip_upd(p.ret)
+                got = None
+                if r[0] == 'agg' and r[2] == 'Some':
+                    bb = strip_upd(r[4][0])
+                    d = dict(zip(bb[3], bb[4]))
+                    got = tuple(tuple(_num(strip_upd(d[corner])[4][i], env) for i in (0, 1)) for corner in ('min', 'max'))
+                n += 1
+                if got != exp:
+                    bad.append((xs, ys, got, exp))
+            if not hits:
+                bad.append((xs, ys, 'no path', exp))
+    except (ValueError, KeyError, TypeError, IndexError) as e:
+        rep.ob(rule, 'bbox-modelled', False, 'get_intersection_bounding_box cannot be evaluated on concrete coordinates: %s' % e,
+               loc=b.loc(b.j['line_lo']), reason='cannot-tabulate')
+        return False
+    rep.rows_compared += n
+    rep.ob(rule, 'bbox:min=max-of-starts,max=min-of-ends', n > 1000 and not bad,
+           'get_intersection_bounding_box must return the intersection of the two segments\' boxes (None when disjoint); %d of %d evaluated '
+           'inputs differ, e.g. x=%s y=%s gives %s, expected %s' % ((len(bad), n) + (bad[0] if bad else ('-', '-', '-', '-'))),
+           loc=b.loc(b.j['line_lo']), reason='table-row')
+    return n > 1000 and not bad
 
 
 def check_algebra(ctx, rep, rule='I-algebra'):
